@@ -6,7 +6,7 @@ ID = "C13"
 READY = True
 ORACLE = "c13"
 HARNESS_BIN = "c13"
-NCASES = {"quick": 9000, "thorough": 200000}
+NCASES = {"quick": 12000, "thorough": 200000}
 CASE_TIMEOUT = {"quick": 30, "thorough": 120}
 
 LEVEL_TEXT = ("Machine-checked Coq theorems over a value-level model of dashu's modular arithmetic with the representation invariant "
@@ -185,10 +185,306 @@ def shift_of(m):
     return (-nb) % 64
 
 
+# ---------------------------------------------------------------------------------------------
+# Boundary classes (results that land exactly on a comparison of the code): built from the
+# STRUCTURE of the modulus, for every ring kind (one word / two words / 3..33 words) with and
+# without a normalisation shift.
+#   * m = p * q with the bit lengths of p and q adding up to the bit length of m (word-aligned
+#     splits and arbitrary ones), so that raw products are exactly m, 2m, ... (the short-product
+#     path of mul_normalized / sqr_normalized: conditional subtraction without a division);
+#   * m = p * p (squaring / pow / the lhs == rhs shortcut of mul_in_place);
+#   * sums a + b = m + d, differences a - b = d, doubles 2a = m + d (d = -1, 0, 1);
+#   * values k*m + d with k of every size;
+#   * m = g * q and a = g * r for common factors g of every shape: small, one word, multi-word,
+#     low word 1 (2^64k + 1, x*2^64 + 1), low words 0, all ones - at every operand length
+#     (1 word, 2 words, 3+ words: the three extended-gcd branches of inv_large).
+# ---------------------------------------------------------------------------------------------
+RING_CLASSES = ["single-aligned", "single-shifted", "double-aligned", "double-shifted", "large-aligned", "large-aligned", "large-shifted", "large-shifted"]
+
+
+def top2(rng, bits):
+    """random value of exactly `bits` bits whose two top bits are set (so products keep the full length)"""
+    if bits <= 0:
+        return 1
+    if bits == 1:
+        return 1
+    v = rng.bits(bits) | (3 << (bits - 2))
+    k = rng.below(6)
+    if k == 0:
+        v = (1 << bits) - 1                     # all ones
+    elif k == 1:
+        v = max((1 << bits) - 1 - rng.below(200), 3 << (bits - 2))    # just below a power of two
+    elif k == 2:
+        v = 3 << (bits - 2)                     # sparse
+    return v
+
+
+def class_bits(rng, cls, tier):
+    """bit length of a modulus of the ring class"""
+    if cls == "single-aligned":
+        return 64
+    if cls == "single-shifted":
+        return rng.choice([2, 3, 8, 31, 32, 33, 62, 63, rng.range(2, 63)])
+    if cls == "double-aligned":
+        return 128
+    if cls == "double-shifted":
+        return rng.choice([65, 66, 96, 126, 127, rng.range(65, 127)])
+    n = rng.choice([3, 3, 3, 4, 4, 5, 6, 7, 8, 9, 16, 17, 32, 33] + ([48, 64, 100] if tier == "thorough" else []))
+    if cls == "large-aligned":
+        return n * W
+    return (n - 1) * W + rng.choice([1, 2, 3, 32, 62, 63, rng.range(1, 63)])
+
+
+def split_bits(rng, nb):
+    """(bits of p, bits of q) with sum nb: whole-word splits first, then anything"""
+    k = rng.below(4)
+    words = [i * W for i in range(1, (nb - 1) // W + 1)]
+    if k < 2 and words:
+        bp = rng.choice(words)          # p fills whole words
+        if k == 1 and nb - bp >= 2:
+            return nb - bp, bp
+        return bp, nb - bp
+    if k == 2 and nb >= 4:
+        bp = rng.range(2, nb - 2)
+        return bp, nb - bp
+    return nb // 2, nb - nb // 2
+
+
+def factored_modulus(rng, cls, tier, square=False):
+    """(m, p, q) with m = p * q of exactly the bit length of the class"""
+    nb = class_bits(rng, cls, tier)
+    if square:
+        if nb % 2:
+            nb += 1 if nb % W else -1   # stay in the class
+        if nb % 2:
+            nb -= 1
+        p = top2(rng, nb // 2)
+        return p * p, p, p
+    bp, bq = split_bits(rng, nb)
+    p, q = top2(rng, bp), top2(rng, bq)
+    if bp >= 2 and bq >= 2:
+        return p * q, p, q
+    # a factor of one bit is 1: take any modulus of the class
+    m = top2(rng, nb)
+    return m, 1, m
+
+
+def common_factor(rng, limit_bits):
+    """a common factor g >= 2 of at most limit_bits bits, from every shape class"""
+    for _ in range(20):
+        k = rng.choice([0, 1, 2, 3, 3, 4, 4, 5, 6, 7, 8, 9, 10, 11, 12, 12, 13])
+        if k == 0:
+            g = rng.choice([2, 3, 4, 5, 6, 7, 9, 15, 255, 256, 641])
+        elif k == 1:
+            g = rng.bits(rng.range(2, 64)) | 1
+        elif k == 2:
+            g = rng.choice([(1 << 64) - 1, (1 << 63), (1 << 63) + 1, (1 << 32) + 1, (1 << 64) - 59])
+        elif k == 3:
+            g = (1 << (W * rng.range(1, 5))) + 1                      # 2^64k + 1: low word 1, one high bit
+        elif k == 4:
+            g = (rng.bits(rng.range(1, 130)) << W) | 1                # x * 2^64 + 1
+        elif k == 5:
+            g = (rng.bits(rng.range(1, 70)) << (2 * W)) | 1           # x * 2^128 + 1: low two words = 1
+        elif k == 6:
+            g = ((rng.bits(rng.range(1, 130)) | 1) << W) | rng.choice([2, 3, 0xffffffffffffffff, 1 << 63])  # multi-word, other low words
+        elif k == 7:
+            g = gen_mag(rng, rng.choice([2, 2, 3, 4, 5])) | 1          # random multi-word odd
+        elif k == 8:
+            g = (1 << (W * rng.range(1, 4))) - 1                      # B^k - 1
+        elif k == 9:
+            g = rng.choice([1, 3, 5, rng.bits(40) | 1]) << (W * rng.range(1, 3))   # low words zero
+        elif k == 10:
+            g = (1 << rng.range(1, 200)) + rng.choice([0, 1, -1])
+        elif k == 11:
+            g = ((1 << W) + 1) * (rng.bits(rng.range(1, 64)) | 1)     # (2^64 + 1) * odd
+        elif k == 12:
+            g = (1 << W) + rng.choice([1, 1, 2, 3, (1 << 63), (1 << 64) - 1])
+        else:
+            g = rng.bits(rng.range(65, 260)) | 1
+        if g >= 2 and g.bit_length() <= limit_bits:
+            return g
+    return 3
+
+
+def shared_factor_case(rng, cls, tier):
+    """(m, a, g): m = g * q in the ring class (bit length exact up to one), a = g * r"""
+    nb = class_bits(rng, cls, tier)
+    g = common_factor(rng, nb - 1)
+    bq = nb - g.bit_length() + rng.choice([0, 0, 1])
+    q = top2(rng, max(1, bq))
+    if q == 1 and bq >= 1:
+        q = rng.choice([1, 3, 5])
+    m = g * q
+    nw = (m.bit_length() + W - 1) // W
+    # a = g * r with the residue one word / two words / three and more words long, up to the length of m and beyond
+    k = rng.below(8)
+    if k == 0:
+        r = 1
+    elif k == 1:
+        r = rng.choice([2, 3, 5, 7, q - 1, q + 1, max(1, q // 2)])
+    elif k == 2:
+        r = rng.bits(max(1, W - g.bit_length() % W))          # fills the current top word
+    elif k == 3:
+        want = rng.choice([1, 2, 3, nw - 1, nw]) * W          # a of exactly that many words (if g allows)
+        r = rng.bits(max(1, want - g.bit_length())) | 1
+    elif k == 4:
+        r = rng.bits(max(1, q.bit_length() - 1)) | 1          # a just below m
+    elif k == 5:
+        r = q + rng.bits(max(1, q.bit_length())) + 1          # a above m
+    elif k == 6:
+        r = top2(rng, rng.range(1, max(2, q.bit_length())))
+    else:
+        r = rng.bits(rng.range(1, q.bit_length() + 70)) | 1
+    return m, g * max(r, 1), g
+
+
+def disguise(rng, v, m):
+    """another representative of the same residue: negative, beyond m, far beyond m"""
+    k = rng.below(8)
+    if k == 0:
+        return v - m
+    if k == 1:
+        return v + m
+    if k == 2:
+        return v - m * rng.choice([2, 3, (1 << 64), (1 << 64) + 1, (1 << 130) - 1])
+    if k == 3:
+        return v + m * (rng.bits(rng.range(1, 140)) + 1)
+    return v
+
+
+def gen_boundary(rng, tier):
+    cls = rng.choice(RING_CLASSES)
+    forms = ["vv", "vr", "rv", "rr", "av", "ar"]
+    k = rng.below(100)
+    red = rng.chance(1, 4)          # through the Reducer trait instead of Reduced
+    if k < 22:
+        # products that are exact multiples of the modulus (or miss one by a factor)
+        m, p, q = factored_modulus(rng, cls, tier)
+        c = ctor_for(rng, m)
+        j1, j2 = rng.choice([1, 1, 1, 1, 2, 3]), rng.choice([1, 1, 1, 1, 2, 5])
+        a, b = p * j1, q * j2
+        t = rng.below(8)
+        if t == 0:
+            b = q + rng.choice([-1, 1])
+        elif t == 1:
+            a = p + rng.choice([-1, 1])
+        elif t == 2:
+            a, b = b, a
+        if red:
+            return "r_mul %s %s %s" % (hx(m), hx(abs(a)), hx(abs(b)))
+        a, b = disguise(rng, a, m), disguise(rng, b, m)
+        w = rng.below(10)
+        if w < 8:
+            return "mul %s %s %s %s %s" % (rng.choice(forms), c, hx(m), hx(a), hx(b))
+        # (x / b) with x * b^-1 ... the quotient route: a / u where u is a unit and a * u^-1 hits p*q
+        return "div %s %s %s %s %s" % (rng.choice(forms), c, hx(m), hx(a), hx(b))
+    if k < 32:
+        # squares: m = p^2 (and p^2 * small), operand p: sqr, x * x, pow 2, pow e
+        m, p, _ = factored_modulus(rng, cls, tier, square=True)
+        c = ctor_for(rng, m)
+        a = p * rng.choice([1, 1, 1, 1, 2, 3]) + rng.choice([0, 0, 0, 0, 0, 0, 1, -1])
+        t = rng.below(6)
+        if red:
+            return rng.choice(["r_sqr %s %s" % (hx(m), hx(abs(a))), "r_mul %s %s %s" % (hx(m), hx(abs(a)), hx(abs(a))),
+                               "r_pow %s %s %s" % (hx(m), hx(abs(a)), hx(rng.choice([2, 3, 4, gen_exp(rng, tier)])))])
+        a2 = disguise(rng, a, m)
+        if t == 0:
+            return "sqr %s %s %s" % (c, hx(m), hx(a2))
+        if t == 1:
+            return "mul %s %s %s %s %s" % (rng.choice(forms), c, hx(m), hx(a2), hx(disguise(rng, a, m)))
+        if t == 2:
+            return "pow %s %s %s %s" % (c, hx(m), hx(a2), hx(rng.choice([2, 2, 3, 4, 5, 6, 8])))
+        if t == 3:
+            return "pow %s %s %s %s" % (c, hx(m), hx(a2), hx(gen_exp(rng, tier)))
+        if t == 4:
+            return "mul %s %s %s %s %s" % (rng.choice(forms), c, hx(m), hx(a2), hx(-a))
+        return "sqr %s %s %s" % (c, hx(m), hx(-a2))
+    # the remaining classes take any modulus of the ring class (factored or not)
+    if rng.chance(1, 2):
+        m, p, q = factored_modulus(rng, cls, tier)
+    else:
+        m = top2(rng, class_bits(rng, cls, tier))
+        if rng.chance(1, 3):
+            m &= ~1
+        if rng.chance(1, 8) and m.bit_length() > 2 * W:
+            m &= ~((1 << W) - 1)
+        p, q = 1, m
+    m = max(m, 1)
+    c = ctor_for(rng, m)
+    x = rng.choice([0, 1, 2, m - 1, m - 2, m // 2, (m + 1) // 2, p % m, q % m, rng.bits(m.bit_length()) % m, rng.bits(m.bit_length()) % m,
+                    rng.bits(rng.range(1, m.bit_length())) % m, (1 << (W * rng.range(0, m.bit_length() // W))) % m])
+    x %= m
+    d = rng.choice([-1, 0, 0, 0, 1])
+    if k < 47:
+        # a + b = m + d
+        y = (m - x + d) % m if m > 1 else 0
+        if red:
+            return "r_add %s %s %s" % (hx(m), hx(x), hx(y))
+        if rng.chance(1, 2):
+            x, y = y, x
+        return "add %s %s %s %s %s" % (rng.choice(forms), c, hx(m), hx(disguise(rng, x, m)), hx(disguise(rng, y, m)))
+    if k < 59:
+        # a - b = d  (0, 1, -1 = m - 1), and 0 - b, a - (m-1)
+        y = (x - d) % m
+        if red:
+            return "r_sub %s %s %s" % (hx(m), hx(x), hx(y))
+        return "sub %s %s %s %s %s" % (rng.choice(forms), c, hx(m), hx(disguise(rng, x, m)), hx(disguise(rng, y, m)))
+    if k < 66:
+        # 2a = m + d
+        x = rng.choice([(m + d) // 2, (m + d + 1) // 2, m // 2, m - 1, (m + 1) // 2, x]) % m
+        if red:
+            return "r_dbl %s %s" % (hx(m), hx(x))
+        if rng.chance(1, 4):
+            return "cl %s %s %s %s" % (c, hx(m), hx(disguise(rng, x, m)), hx(rng.bits(70)))
+        return "dbl %s %s %s" % (c, hx(m), hx(disguise(rng, x, m)))
+    if k < 70:
+        if red:
+            return "r_neg %s %s" % (hx(m), hx(x))
+        return "neg %s %s %s %s" % (rng.choice(["v", "r"]), c, hx(m), hx(disguise(rng, x, m)))
+    if k < 78:
+        # k*m + d for multipliers of every size and both signs
+        mult = rng.choice([1, 2, 3, (1 << 63), (1 << 64) - 1, 1 << 64, (1 << 64) + 1, (1 << 128) - 1, 1 << 128, rng.bits(rng.range(1, 64)) + 1,
+                           rng.bits(rng.range(64, 200)) + 1, gen_mag(rng, rng.choice([1, 2, 3, 5])) + 1, m, m - 1, m + 1])
+        v = mult * m + rng.choice([-1, 0, 0, 1, m - 1, -(m - 1), x])
+        if rng.chance(1, 2):
+            v = -v
+        if red:
+            return rng.choice(["r_transform %s %s", "r_is_zero %s %s"]) % (hx(m), hx(abs(v)))
+        if rng.chance(1, 4):
+            return "eq %s %s %s %s" % (c, hx(m), hx(v), hx(rng.choice([v % m, v % m - m, 0, v + m, v + 1])))
+        return "reduce %s %s %s %s" % ("i" if v < 0 or rng.chance(1, 2) else "u", c, hx(m), hx(v))
+    if k < 82:
+        # powers of m-1 (= +-1), of 0 and 1, with every exponent shape
+        b = rng.choice([m - 1, m - 1, -1, 0, 1, m, m + 1, p, q])
+        e = gen_exp(rng, tier)
+        if red:
+            return "r_pow %s %s %s" % (hx(m), hx(abs(b)), hx(e))
+        return "pow %s %s %s %s" % (c, hx(m), hx(b), hx(e))
+    # common factors: inverse and division
+    m, a, g = shared_factor_case(rng, cls, tier)
+    c = ctor_for(rng, m)
+    t = rng.below(10)
+    if t == 0:
+        a = a // g * rng.choice([1, 1, 3]) + rng.choice([0, 1])     # usually a unit of the same shape
+        a = max(a, 1)
+    if red:
+        return "r_inv %s %s" % (hx(m), hx(a))
+    a = disguise(rng, a, m)
+    if t < 6:
+        return "inv %s %s %s" % (c, hx(m), hx(a))
+    if t < 9:
+        return "div %s %s %s %s %s" % (rng.choice(forms), c, hx(m), hx(rng.choice([1, 5, g, m - 1, rng.bits(m.bit_length())])), hx(a))
+    m2 = m if rng.chance(1, 2) else gen_modulus(rng, tier)
+    return "mix %s %s %s %s %s" % (rng.choice(["div", "div_ar"]), hx(m), hx(m2), hx(5), hx(a))
+
+
 def gen_cases(rng, tier, n):
     out = []
     forms = ["vv", "vr", "rv", "rr", "av", "ar"]
     while len(out) < n:
+        if rng.chance(2, 5):
+            out.append(gen_boundary(rng, tier))
+            continue
         m = gen_modulus(rng, tier)
         k = rng.below(100)
         c = ctor_for(rng, m)
